@@ -14,7 +14,7 @@ def gen_path(rng):
     return s
 
 
-def gen_ops(rng, depth=0):
+def gen_ops(rng, depth=0, long_paths=False):
     ops, pats = [], []
     sid = [rng.randrange(1, 1000)]
     for _ in range(rng.randrange(1, 8)):
@@ -22,6 +22,9 @@ def gen_ops(rng, depth=0):
         sid[0] += 1
         if r < 0.45:
             p = gen_path(rng)
+            if long_paths and rng.random() < 0.4:
+                # an exact path that is itself long
+                p = p.rstrip("/") + "/" + rng.choice(["s" * 254, "t" * 300, "pkg.Svc" * 60, "u" * 1100])
             ops.append("r:%s:%d" % (hx(p.encode()), sid[0]))
             pats.append(p)
         elif r < 0.6:
@@ -46,7 +49,7 @@ def gen_ops(rng, depth=0):
                 pats.append(p)
             ops += ["[c"] + sub + ["]"]
         elif depth < 2:
-            sub, sp = gen_ops(rng, depth + 1)
+            sub, sp = gen_ops(rng, depth + 1, long_paths)
             ops += ["["] + sub + ["]"]
             pats += sp
     return ops, pats
@@ -59,6 +62,10 @@ def gen_queries(rng, pats):
         qs += [base, base.rstrip("/"), base + "/", base + "x", base + "x/y", base + "/x", base[:-1] if len(base) > 1 else base, base + "é", base.upper()]
         # the leading slash missing or repeated, in front of the pattern itself and of something below it
         qs += [base[1:], base[1:] + "x", base[1:] + "x/y", "/" + base, "/" + base + "x", "//" + base + "x/y"]
+        # long routes: nothing in the property bounds a route's length (sizes around powers of two and well beyond)
+        if "*" in p:
+            bl = len(base.encode())
+            qs += [base + "k" * max(1, n - bl) for n in (255, 256, 257, 512, 1025)] + [base + "m" * 300 + "/n/" + "o" * 300, base + "z" * 5000]
     for _ in range(6):
         qs.append(gen_path(rng) + rng.choice(["", "", "/", "x", "/a/b/c"]))
     return qs
@@ -84,6 +91,10 @@ def run(chk):
                     for back in range(1, len(ch.encode())):
                         qs.append("/" + "a" * (off - back - 1) + ch * 3)
         cases.append("router %s | %s" % (" ".join(ops), " ".join(hx(q.encode()) for q in qs)))
+    # further programs in which exact paths may be long themselves (generated last: the programs above do not depend on them)
+    for i in range(8 if quick else 200):
+        ops, pats = gen_ops(chk.rng, long_paths=True)
+        cases.append("router %s | %s" % (" ".join(ops), " ".join(hx(q.encode()) for q in gen_queries(chk.rng, pats))))
     # invalid registrations
     for p in ["", "a", "a/b", "*rest", "/a/*", "/a/*r/x", "/:id", "/a/:id/b"]:
         cases.append("router r:%s:1 | %s" % (hx(p.encode()), hx(b"/a")))
